@@ -1,0 +1,196 @@
+//go:build verif
+
+// Contracts for the fvc verification-condition generator in /verif (comment-only file).
+// C01 (second part): the lookup index (buildTree / uniqueRouteStack), 405 detection (methodExist),
+// Next / RestartRouting, register's flags.
+
+package fiber
+
+//@ props C01
+
+// ---------------------------------------------------------------------------------------------
+// uniqueRouteStack: the result holds exactly the distinct routes of the input, each once, in the
+// order of their first occurrence.
+// The element heap of []*Route is in the frame as a whole: the loop appends, and the frame "only the
+// new array" cannot be carried through a loop head (engine: loop-head havoc of element heaps).
+// ---------------------------------------------------------------------------------------------
+//@ func uniqueRouteStack
+//@   modifies heap(E_p_fiber_Route), heap(MD_p_fiber_Route_struct__), heap(MV_p_fiber_Route_struct__)
+//@   loop 1
+//@     invariant index-range: rangeindex + 1 <= len(stack)
+//@     invariant input-kept: forall(i, 0, len(stack), stack[i] == old(stack[i]))
+//@     invariant result-array-is-new: unique == nil || !wasAllocated(arr(unique))
+//@     invariant set-from-prefix: forallI(r, indom(m, r) ==> exists(i, 0, rangeindex + 1, old(stack[i]) == r))
+//@     invariant prefix-in-set: forall(i, 0, rangeindex + 1, indom(m, old(stack[i])))
+//@     invariant result-in-set: forall(j, 0, len(unique), indom(m, unique[j]))
+//@     invariant set-in-result: forallI(r, indom(m, r) ==> exists(j, 0, len(unique), unique[j] == r))
+//@     invariant result-distinct: forall(a, 0, len(unique), forall(b, a + 1, len(unique), unique[a] != unique[b]))
+//@     invariant first-occurrence-order: forall(a, 0, len(unique), forall(b, a + 1, len(unique), exists(i, 0, rangeindex + 1, old(stack[i]) == unique[a] && forall(k, 0, i + 1, old(stack[k]) != unique[b]))))
+//@   ensures no-duplicates: forall(a, 0, len(result), forall(b, a + 1, len(result), result[a] != result[b]))
+//@   ensures only-members: forall(j, 0, len(result), exists(i, 0, len(stack), old(stack[i]) == result[j]))
+//@   ensures every-member: forall(i, 0, len(stack), exists(j, 0, len(result), result[j] == old(stack[i])))
+//@   ensures first-occurrence-order: forall(a, 0, len(result), forall(b, a + 1, len(result), exists(i, 0, len(stack), old(stack[i]) == result[a] && forall(k, 0, i + 1, old(stack[k]) != result[b]))))
+
+// ---------------------------------------------------------------------------------------------
+// 405 detection: methodExist scans, for every OTHER method, the bucket that `next` would scan for this
+// request and reports whether some endpoint (non-use route) matches; every such method is appended to Allow
+// at its first matching endpoint (so once per method).
+// ---------------------------------------------------------------------------------------------
+// The bucket of the lookup index that a request with tree hash h scans for method index m (Go's map lookup: the
+// bucket of h if h is a key, otherwise bucket 0, which is empty if 0 is not a key either): its length and elements.
+//@ macro bucketLen(app, m, h) = ite(indom(app.treeStack[m], h), len(app.treeStack[m][h]), ite(indom(app.treeStack[m], 0), len(app.treeStack[m][0]), 0))
+//@ macro bucketAt(app, m, h, k) = ite(indom(app.treeStack[m], h), app.treeStack[m][h][k], app.treeStack[m][0][k])
+//@ macro isBucket(tree, app, m, h) = len(tree) == bucketLen(app, m, h) && forall(k, 0, len(tree), tree[k] == bucketAt(app, m, h, k))
+// method index m has an endpoint (non-use route) in its bucket that matches the request of c
+//@ macro hasEndpoint(app, c, m) = exists(k, 0, bucketLen(app, m, c.treePathHash), !bucketAt(app, m, c.treePathHash, k).use && matches(bucketAt(app, m, c.treePathHash, k), dpOf(c), pathOf(c), epoch))
+//@ macro requestKept(c) = c.methodInt == old(c.methodInt) && c.treePathHash == old(c.treePathHash) && c.path == old(c.path) && c.detectionPath == old(c.detectionPath) && c.pathOriginal == old(c.pathOriginal) &&
+//@ ..  dpOf(c) == old(dpOf(c)) && pathOf(c) == old(pathOf(c))
+
+//@ func (*DefaultCtx).getMethodInt
+//@   pure
+//@   ensures result == c.methodInt
+//@ func (*DefaultCtx).getIndexRoute
+//@   pure
+//@   ensures result == c.indexRoute
+//@ func (*DefaultCtx).setIndexRoute
+//@   modifies c.indexRoute
+//@   ensures c.indexRoute == route
+//@ func (*DefaultCtx).getValues
+//@   pure
+//@   ensures result == c.values
+
+//@ func (*App).methodExist
+//@   requires ctx-of-this-app: c.app == app
+//@   requires one-tree-per-method: len(app.treeStack) == len(app.config.RequestMethods)
+//@   requires trees-wf: wfTrees(app)
+//@   requires paths-wf: foldPrefix(dpOf(c), pathOf(c))
+// (frame: whole field heaps because the loops call Path/setIndexRoute - a loop head forgets single-location frames)
+//@   modifies DefaultCtx.indexRoute, DefaultCtx.pathOriginal, DefaultCtx.path, DefaultCtx.detectionPath, DefaultCtx.treePathHash, heap(E_string), heap(E_uint8)
+//@   loop 1
+//@     invariant method-index: 0 <= i && i <= len(methods)
+//@     invariant request-kept: requestKept(c)
+//@     invariant found-iff-scanned-method-has-endpoint: exists <==> exists(m, 0, i, m != c.methodInt && hasEndpoint(app, c, m))
+//@   loop 2
+//@     invariant position: -1 <= c.indexRoute
+//@     invariant request-kept: requestKept(c)
+//@     invariant scans-the-bucket: isBucket(tree, app, i, c.treePathHash)
+//@     invariant other-method: lenr == len(tree) - 1 && i != c.methodInt && 0 <= i && i < len(methods)
+//@     invariant skipped-are-use-or-do-not-match: forall(k, 0, c.indexRoute + 1, tree[k].use || !matches(tree[k], dpOf(c), pathOf(c), epoch))
+//@     decreases lenr - c.indexRoute
+//@   atcall (*DefaultCtx).Append: allow-names-other-method-with-endpoint: field == HeaderAllow && len(values) == 1 && values[0] == app.config.RequestMethods[i] && i != c.methodInt &&
+//@ ..    isBucket(tree, app, i, c.treePathHash) && tree[c.indexRoute] == route && !route.use && matches(route, dpOf(c), pathOf(c), epoch)
+//@   atcall (*DefaultCtx).Append: at-first-endpoint-so-once-per-method: forall(k, 0, c.indexRoute, tree[k].use || !matches(tree[k], dpOf(c), pathOf(c), epoch))
+//@   ensures result-iff-other-method-has-endpoint: result <==> old(exists(m, 0, len(app.config.RequestMethods), m != c.methodInt && hasEndpoint(app, c, m)))
+//@   ensures every-method-scanned: i >= len(methods)
+//@   ensures request-kept: requestKept(c)
+
+// The same scan for custom contexts (all request state through the assumed CustomCtx accessor contracts of
+// zz_contracts_verif.go; c.App() is ctxApp(c), mw_C08.spec). Append reaches the response header only (not heap-modelled).
+//@ func CustomCtx.Append(recv, field, values) assumed pure
+//@ macro hasEndpointC(app, c, m) = exists(k, 0, bucketLen(app, m, chash(c, epoch)), !bucketAt(app, m, chash(c, epoch), k).use &&
+//@ ..  matches(bucketAt(app, m, chash(c, epoch), k), cdp(c, epoch), cpath(c, epoch), epoch))
+//@ func (*App).methodExistCustom
+//@   requires ctx-of-this-app: ctxApp(c) == app
+//@   requires one-tree-per-method: len(app.treeStack) == len(app.config.RequestMethods)
+//@   requires trees-wf: wfTrees(app)
+//@   modifies ciIdx, heap(E_string)
+//@   loop 1
+//@     invariant method-index: 0 <= i && i <= len(methods)
+//@     invariant found-iff-scanned-method-has-endpoint: exists <==> exists(m, 0, i, m != cmethodInt(c, epoch) && hasEndpointC(app, c, m))
+//@   loop 2
+//@     invariant position: -1 <= ciIdx[c]
+//@     invariant scans-the-bucket: isBucket(tree, app, i, chash(c, epoch))
+//@     invariant other-method: lenr == len(tree) - 1 && i != cmethodInt(c, epoch) && 0 <= i && i < len(methods)
+//@     invariant skipped-are-use-or-do-not-match: forall(k, 0, ciIdx[c] + 1, tree[k].use || !matches(tree[k], cdp(c, epoch), cpath(c, epoch), epoch))
+//@     decreases lenr - ciIdx[c]
+//@   atcall CustomCtx.Append: allow-names-other-method-with-endpoint: field == HeaderAllow && len(values) == 1 && values[0] == app.config.RequestMethods[i] && i != cmethodInt(c, epoch) &&
+//@ ..    isBucket(tree, app, i, chash(c, epoch)) && tree[ciIdx[c]] == route && !route.use && matches(route, cdp(c, epoch), cpath(c, epoch), epoch)
+//@   atcall CustomCtx.Append: at-first-endpoint-so-once-per-method: forall(k, 0, ciIdx[c], tree[k].use || !matches(tree[k], cdp(c, epoch), cpath(c, epoch), epoch))
+//@   ensures result-iff-other-method-has-endpoint: result <==> old(exists(m, 0, len(app.config.RequestMethods), m != cmethodInt(c, epoch) && hasEndpointC(app, c, m)))
+//@   ensures every-method-scanned: i >= len(methods)
+
+// ---------------------------------------------------------------------------------------------
+// Next / RestartRouting: a handler hands over by calling Next. Next runs the next handler of the SAME route if
+// there is one (the context still points at that route, handler index one higher); otherwise it continues the
+// scan of the bucket after the current position (next / nextCustom with the scan position untouched).
+// RestartRouting restarts the scan from the top (position -1). Exactly one continuation runs, and its error
+// is what the caller gets.
+// (precondition: called from a handler of a dispatch chain - next has set c.route and c.indexHandler)
+// ---------------------------------------------------------------------------------------------
+//@ func (*DefaultCtx).Next
+//@   requires in-a-chain: c.route != nil && c.indexHandler >= 0
+//@   atcall Route.Handlers$elem: next-handler-of-the-same-route: c.route == old(c.route) && c.indexHandler == old(c.indexHandler) + 1 && c.indexHandler < len(c.route.Handlers) &&
+//@ ..    fnvalue == c.route.Handlers[c.indexHandler] && c.indexRoute == old(c.indexRoute) && as(arg0, *DefaultCtx) == c
+//@   atcall (*App).next: route-exhausted-scan-continues-after-current-position: old(c.indexHandler) + 1 >= len(old(c.route.Handlers)) && c == old(c) && app == old(c.app) && old(c.app.newCtxFunc) == nil &&
+//@ ..    c.indexRoute == old(c.indexRoute) && c.route == old(c.route) && c.matched == old(c.matched)
+//@   atcall (*App).nextCustom: route-exhausted-scan-continues-after-current-position: old(c.indexHandler) + 1 >= len(old(c.route.Handlers)) && as(c, *DefaultCtx) == old(c) && typeis(c, *DefaultCtx) && app == old(c.app) &&
+//@ ..    old(c.app.newCtxFunc) != nil && old(c).indexRoute == old(c.indexRoute) && old(c).route == old(c.route) && old(c).matched == old(c.matched)
+//@   ensures exactly-one-continuation: (called(Route.Handlers$elem) && !called((*App).next) && !called((*App).nextCustom)) || (!called(Route.Handlers$elem) && called((*App).next) && !called((*App).nextCustom)) ||
+//@ ..    (!called(Route.Handlers$elem) && !called((*App).next) && called((*App).nextCustom))
+//@   ensures returns-its-error: (called(Route.Handlers$elem) ==> result == last(Route.Handlers$elem)) && (called((*App).next) ==> result == last((*App).next_1)) && (called((*App).nextCustom) ==> result == last((*App).nextCustom_1))
+
+//@ func (*DefaultCtx).RestartRouting
+//@   atcall (*App).next: scan-restarts-from-the-top: c == old(c) && app == old(c.app) && old(c.app.newCtxFunc) == nil && c.indexRoute == -1
+//@   atcall (*App).nextCustom: scan-restarts-from-the-top: as(c, *DefaultCtx) == old(c) && typeis(c, *DefaultCtx) && app == old(c.app) && old(c.app.newCtxFunc) != nil && old(c).indexRoute == -1
+//@   ensures exactly-one-continuation: called((*App).next) != called((*App).nextCustom)
+//@   ensures returns-its-error: (called((*App).next) ==> result == last((*App).next_1)) && (called((*App).nextCustom) ==> result == last((*App).nextCustom_1))
+
+// ---------------------------------------------------------------------------------------------
+// Path override and the scan position. next() continues the scan at c.indexRoute + 1 in the bucket selected by the
+// CURRENT method and tree hash. The property demands that after a handler overrides the path the rest of the chain
+// is the later-registered routes: the cursor has to split the (position-sorted) bucket that is scanned from now on
+// at the running route's registration position.
+// ---------------------------------------------------------------------------------------------
+//@ macro bucketSorted(app, m, h) = forall(a, 0, bucketLen(app, m, h), forall(b, a + 1, bucketLen(app, m, h), bucketAt(app, m, h, a).pos <= bucketAt(app, m, h, b).pos))
+//@ macro cursorSplitsBucket(c) = -1 <= c.indexRoute && c.indexRoute < bucketLen(c.app, c.methodInt, c.treePathHash) &&
+//@ ..  forall(k, 0, bucketLen(c.app, c.methodInt, c.treePathHash), (k <= c.indexRoute ==> bucketAt(c.app, c.methodInt, c.treePathHash, k).pos <= c.route.pos) &&
+//@ ..     (k > c.indexRoute ==> bucketAt(c.app, c.methodInt, c.treePathHash, k).pos > c.route.pos))
+//@ macro inDispatch(c) = c.route != nil && 0 <= c.methodInt && c.methodInt < len(c.app.treeStack)
+
+// (only with fix_1.diff applied) resyncIndexRoute: the cursor becomes the last entry of the bucket registered no later than the running route
+//@ func (*DefaultCtx).resyncIndexRoute
+//@   modifies c.indexRoute
+//@   loop 1
+//@     invariant scanned-prefix-not-later: 0 <= i && i <= len(tree) && forall(k, 0, i, tree[k].pos <= c.route.pos)
+//@     invariant bucket: isBucket(tree, c.app, c.methodInt, c.treePathHash) && inDispatch(c) && c.indexRoute == old(c.indexRoute)
+//@     decreases len(tree) - i
+//@   ensures cursor-at-the-running-route-position: inDispatch(c) && bucketSorted(c.app, c.methodInt, c.treePathHash) ==> cursorSplitsBucket(c)
+//@   ensures outside-a-dispatch-nothing: !old(inDispatch(c)) ==> c.indexRoute == old(c.indexRoute)
+
+// ---------------------------------------------------------------------------------------------
+// buildTree: the lookup index. For every method the routes of the method's stack are partitioned by the hash of
+// their first literal (rhash: 0 unless the first segment is a literal of at least 3 bytes - exactly 3 bytes with an
+// optional trailing slash also stays in 0, such a route matches a 2-byte detection path whose hash is 0); bucket 0 is
+// then merged into every other bucket and each bucket is sorted by registration position.
+// ---------------------------------------------------------------------------------------------
+//@ macro rhash(r) = ite(len(r.routeParser.segs) > 0 && len(r.routeParser.segs[0].Const) >= maxDetectionPaths &&
+//@ ..  !(r.routeParser.segs[0].HasOptionalSlash && len(r.routeParser.segs[0].Const) == maxDetectionPaths), hash3(r.routeParser.segs[0].Const), 0)
+
+// route r sits in the bucket of its hash (tsMap: the map under construction)
+//@ macro inItsBucket(tsMap, r) = indom(tsMap, rhash(r)) && exists(j, 0, len(tsMap[rhash(r)]), tsMap[rhash(r)][j] == r)
+
+// the order the buckets are sorted by: registration position (sort.Slice calls it with indices inside the slice)
+//@ func (*App).buildTree$1
+//@   pure
+//@   requires indices-of-the-slice: 0 <= i && i < len(slc) && 0 <= j && j < len(slc)
+//@   ensures less-is-position-order: result == (slc[i].pos < slc[j].pos)
+
+// Under contract: safety, frame, the flag, and LOOP 2 (bucket construction for one method): every scanned route sits in
+// the bucket of its hash, buckets are non-empty, allocated, pairwise apart and apart from the stack. Two further loop-2
+// invariants prove but are left out because they make the preserve queries seed-sensitive (3-25 s):
+//   bucket-elements-have-its-hash: forallI(h, indom(tsMap, h) ==> forall(j, 0, len(tsMap[h]), rhash(tsMap[h][j]) == h))
+//   bucket-elements-are-routes-of-the-stack: forallI(h, indom(tsMap, h) ==> forall(j, 0, len(tsMap[h]), exists(i, 0, rangeindex + 1, app.stack[m][i] == tsMap[h][j])))
+// NOT under contract (engine, see the report): loop 3 (merge of bucket 0, uniqueRouteStack, sort.Slice) and therefore the
+// lookup index the function leaves behind. heap(E_p_fiber_Route) etc. are whole-heap frames for the same reason.
+//@ func (*App).buildTree
+//@   requires one-stack-per-method: len(app.stack) == len(app.config.RequestMethods)
+//@   requires one-tree-per-method: len(app.treeStack) == len(app.config.RequestMethods)
+//@   modifies app.routesRefreshed, heap(E_mapLintJLJp_fiber_Route), heap(E_p_fiber_Route), heap(MD_int_LJp_fiber_Route), heap(MV_int_LJp_fiber_Route), heap(MD_p_fiber_Route_struct__), heap(MV_p_fiber_Route_struct__)
+//@   loop 2
+//@     invariant map-is-new: tsMap != nil
+//@     invariant stack-exists: arr(app.stack[m]) == 0 || allocated(arr(app.stack[m]))
+//@     invariant buckets-apart: forallI(h, indom(tsMap, h) ==> arr(tsMap[h]) != arr(app.stack[m]) && arr(tsMap[h]) != 0 && allocated(arr(tsMap[h])) && len(tsMap[h]) > 0) && forallI(h1, forallI(h2, indom(tsMap, h1) && indom(tsMap, h2) && h1 != h2 ==> arr(tsMap[h1]) != arr(tsMap[h2])))
+//@     invariant earlier-routes-in-the-bucket-of-their-hash: forall(i, 0, rangeindex, inItsBucket(tsMap, app.stack[m][i]))
+//@     invariant last-route-in-the-bucket-of-its-hash: rangeindex >= 0 ==> inItsBucket(tsMap, app.stack[m][rangeindex])
+//@   ensures returns-receiver: result == app
+//@   ensures refresh-flag-cleared: !app.routesRefreshed
